@@ -83,6 +83,35 @@ def run(ctx):
         except Exception as e:
             impl = f"raised:{type(e).__name__}"
         lines.append(("frame", fs, impl))
+    # ---- 1b. sequences of writes through ONE protocol object: what a frame looks like on the wire does not depend on
+    # what was written before (a retransmission carries a fresh ackNum; frames of several kinds alternate)
+    rng0 = ctx.rng
+    for _ in range(ctx.n(400, 4000)):
+        p, log = ashlib.make_proto()
+        frm = rng0.randrange(8)
+        pay = bytes(rng0.choice([0x7E, 0x7D, 0x11, 0x00, 0xFF, rng0.getrandbits(8)]) for _ in range(rng0.randint(0, 6)))
+        seq = []
+        for k in range(rng0.randint(2, 6)):
+            t = rng0.random()
+            if t < 0.6:   # (re)transmission of the same DATA frame with whatever ackNum is current
+                seq.append(f"D:{frm}:{1 if k else 0}:{rng0.randrange(8)}:{hx(pay)}")
+            elif t < 0.75:
+                seq.append(f"A:0:0:{rng0.randrange(8)}")
+            elif t < 0.85:
+                seq.append(f"N:0:0:{rng0.randrange(8)}")
+            else:
+                frm = (frm + 1) % 8
+                pay = bytes(rng0.getrandbits(8) for _ in range(rng0.randint(0, 6)))
+                seq.append(f"D:{frm}:0:{rng0.randrange(8)}:{hx(pay)}")
+        for k, fs in enumerate(seq):
+            f = ashlib.mk_frame(fs)
+            try:
+                n0 = len(log)
+                p._write_frame(f, prefix=(ash.Reserved.CANCEL,) if fs[0] in "RN" else ())
+                impl = f"{hx(f.to_bytes())} {log[n0][1:]} {impl_parse(f.to_bytes())}"
+            except Exception as e:
+                impl = f"raised:{type(e).__name__}"
+            lines.append(("frame", fs, impl) if k == 0 else ("frame", fs, impl, seq[:k]))
     # ---- 2. exhaustive finite functions
     for c in range(256):
         lines.append(("stuff1", c, hx(ash.AshProtocol._stuff_bytes(bytes([c])))))
@@ -148,7 +177,7 @@ def run(ctx):
 
     # ---- driver
     dl = []
-    for kind, case, impl in lines:
+    for kind, case, impl, *hist in lines:
         if kind == "frame":
             dl += [f"c03 enc {case}", f"c03 spec {case}", f"c03 wire {'1a' if case[0] in 'RN' else '-'} {case}"]
         elif kind == "stuff1":
@@ -160,7 +189,7 @@ def run(ctx):
     out = ctx.driver(dl)
     k = 0
     seen = set()
-    for kind, case, impl in lines:
+    for kind, case, impl, *hist in lines:
         ctx.cov["evaluations"] += 1
         ctx.count(f"kind:{kind}")
         key = (kind, str(case))
@@ -179,7 +208,7 @@ def run(ctx):
                 ctx.violation(
                     f"frame {case}: implementation bytes/wire/round-trip {impl} differ from the specification's {want}",
                     {"kind": "layout", "frame_class": case[0]},
-                    {"kind": "frame", "frame": case, "impl": impl, "spec": want},
+                    {"kind": "frame", "frame": case, "impl": impl, "spec": want, "written_before": hist[0] if hist else []},
                 )
             if impl != model:
                 ctx.corr_diff(f"encode/wire/parse of {case}", case, impl, model)
@@ -204,7 +233,7 @@ def run(ctx):
                 )
             if impl != m:
                 ctx.corr_diff(f"{kind} of {case}", case, impl, m)
-    ctx.cov["rule"] = ("every control-field value of every frame class with random / all-reserved / all-zero payloads of lengths 0..256, all 256 reset codes; "
+    ctx.cov["rule"] = ("sequences of 2..6 writes through one protocol object (retransmissions of a DATA frame with changing ackNum, interleaved ACK/NAK, the next DATA frame); every control-field value of every frame class with random / all-reserved / all-zero payloads of lengths 0..256, all 256 reset codes; "
                        "stuffing of every byte, unstuffing of every byte pair, classification of every control byte with five bodies (exhaustive); random strings for "
                        "stuffing/unstuffing/CRC; parse of bit-flipped, truncated, extended and re-CRC'd frames; every 1- and 2-bit corruption of nine short frames on the real parser. "
                        "distinct = distinct (kind, input); all are non-trivial (each reaches the codec)")
@@ -227,6 +256,8 @@ def replay(ctx, obj):
         f = ashlib.mk_frame(r["frame"])
         raw = f.to_bytes()
         p, log = ashlib.make_proto()
+        for prev in r.get("written_before", []):
+            p._write_frame(ashlib.mk_frame(prev), prefix=(ash.Reserved.CANCEL,) if prev[0] in "RN" else ())
         p._write_frame(f, prefix=(ash.Reserved.CANCEL,) if r["frame"][0] in "RN" else ())
         impl = f"{hx(raw)} {log[-1][1:]} {impl_parse(raw)}"
         bad = None if impl == r["spec"] else f"{impl} != spec {r['spec']}"
